@@ -573,6 +573,10 @@ impl Formatter<'_> {
         if self.config.align_comments && !self.end_of_line_comments.is_empty() {
             // Group comments by consecutive lines
             let mut groups: Vec<(usize, Vec<EoLComment>)> = Vec::new();
+            // The glyph map was built from the lines as they are now
+            let orig_lens: Vec<(usize, usize)> = (self.output.split('\n'))
+                .map(|s| (s.len(), s.chars().count()))
+                .collect();
             let mut lines: Vec<String> = (self.output.split('\n'))
                 .map(|s| {
                     if s.ends_with(' ') && !s.trim_start().starts_with("$ ") {
@@ -605,8 +609,7 @@ impl Formatter<'_> {
                 for (line_number, octos, comment) in group {
                     // Add comment back to line
                     let line = &mut lines[line_number - 1];
-                    let start_byte_len = line.len();
-                    let start_char_len = line.graphemes(true).count();
+                    let (start_byte_len, start_char_len) = orig_lens[line_number - 1];
                     let spaces = (max + 1).saturating_sub(line.graphemes(true).count());
                     // line.push_str(&" ".repeat(spaces));
                     line.extend(repeat_n(' ', spaces));
@@ -620,14 +623,15 @@ impl Formatter<'_> {
                     }
                     line.push_str(&comment);
                     // Update subsequent mappings
-                    let byte_len_diff = line.len() - start_byte_len - 1;
-                    let char_len_diff = line.graphemes(true).count() - start_char_len - 1;
-                    for (before, after) in self.glyph_map.iter_mut() {
-                        if before.start.line as usize > line_number {
-                            after.0.byte_pos += byte_len_diff as u32;
-                            after.0.char_pos += char_len_diff as u32;
-                            after.1.byte_pos += byte_len_diff as u32;
-                            after.1.char_pos += char_len_diff as u32;
+                    let byte_len_diff = line.len() as i64 - start_byte_len as i64;
+                    let char_len_diff = line.chars().count() as i64 - start_char_len as i64;
+                    for (_, after) in self.glyph_map.iter_mut() {
+                        // Output lines are counted from 0
+                        for loc in [&mut after.0, &mut after.1] {
+                            if loc.line as usize >= line_number {
+                                loc.byte_pos = (loc.byte_pos as i64 + byte_len_diff) as u32;
+                                loc.char_pos = (loc.char_pos as i64 + char_len_diff) as u32;
+                            }
                         }
                     }
                 }
